@@ -75,8 +75,10 @@ REQUIRED_BINS = ["fs12_session", "fs60_session", "hs_session", "chirp_packet_see
                  "foreign_setup", "sof_sent", "in_data_not_acked", "setup_abandons_transfer", "control_out_data_stage",
                  "control_stalled", "address_changed", "bus_reset_mid_session", "host_timeout_minimal",
                  "tx_stall_before_first_byte", "tx_stall_mid_packet", "data_then_handshake_sources_alternate",
-                 "handshake_right_after_data_packet", "wire_fault_session", "answer_after_damaged_packet_unjudged",
+                 "handshake_right_after_data_packet", "wire_fault_session",
                  "host_packet_min_gap_after_device_packet", "zlp_transmitted", "max_size_data_packet"]
+# (bin "answer_after_damaged_packet_unjudged" is informative only: whether a device answers after a damaged packet at all
+#  depends on the device, so it must not be able to make the run inconclusive)
 REQUIRED_EVENTS = ["cycles_monitored", "device_packets", "data_packets", "handshake_packets", "host_packets",
                    "solicitation_checks", "wellformed_checks", "source_data_cycles", "source_handshake_cycles",
                    "source_chirp_cycles", "packets_single_source_checked", "rx_active_cycles"]
